@@ -14,8 +14,10 @@ Fixpoint queued_all (o : list out) : list (N * qframe) :=
 (* ---------------------------------------------------------------------------------------------
    an explicit reset (SendStream::send_reset, SendResponse::send_reset) *)
 
+(* (no_push: the stream's queue holds no unsent PUSH_PROMISE - every stream of a client, every pushed stream; when it
+   does, the promised streams are failed together with the dropped promises, see explicit_reset_confined) *)
 Theorem explicit_reset st k code can st' outs r :
-  kget st k = Some r -> step st (LSendReset k code can) = Ok st' outs ->
+  kget st k = Some r -> no_push (s_q r) = true -> step st (LSendReset k code can) = Ok st' outs ->
   (forall k', k' <> k -> kget st' k' = kget st k') /\ c_ids st' = c_ids st /\ has_emit outs = false /\
   exists r', kget st' k = Some r' /\ s_id r' = s_id r /\
   (* already reset (by either side, or scheduled): nothing more *)
@@ -31,8 +33,9 @@ Theorem explicit_reset st k code can st' outs r :
         queued_all outs = [(s_id r, QReset code)] /\ s_infl r' = (if s_popen r then s_infl r else None) /\
         s_q r' = (if s_popen r then s_q r ++ [QReset code] else [QReset code]))).
 Proof.
-  intros Hk Hs. cbn [step] in Hs. unfold step_send_reset, actions_send_reset in Hs. rewrite Hk in Hs.
-  destruct (send_reset_core (s_id r) code User r) as [r1 o1] eqn:Ec. use_res1 Hs.
+  intros Hk Hnp Hs. cbn [step] in Hs. unfold step_send_reset, actions_send_reset in Hs. rewrite Hk in Hs.
+  destruct (send_reset_core (s_id r) code User r) as [r1 o1] eqn:Ec.
+  rewrite drop_promises_no_push in Hs by auto. use_res1 Hs.
   split; [intros; apply kget_put_other; auto|]. split; [reflexivity|].
   unfold send_reset_core in Ec. unfold closed_full.
   destruct (is_reset (s_state r)) eqn:Er.
@@ -91,7 +94,7 @@ Qed.
    first); with an empty queue exactly the RST_STREAM with the scheduled code goes out and the record becomes an
    ordinary library reset: nothing follows it *)
 Theorem pop_scheduled st k o st' outs r reason :
-  kget st k = Some r -> get_scheduled_reset (s_state r) = Some reason ->
+  kget st k = Some r -> no_push (s_q r) = true -> get_scheduled_reset (s_state r) = Some reason ->
   step st (LPop k o) = Ok st' outs ->
   match s_q r with
   | [] => outs = [OEmit (WFrame (s_id r) (QReset reason))] /\
@@ -104,7 +107,8 @@ Theorem pop_scheduled st k o st' outs r reason :
   | f :: q' => outs = [OEmit (WFrame (s_id r) f)] /\ exists r', kget st' k = Some r' /\ s_q r' = q' /\ s_state r' = s_state r
   end.
 Proof.
-  intros Hk Hr Hs. cbn [step] in Hs. unfold step_pop in Hs. rewrite Hk in Hs.
+  intros Hk Hnp Hr Hs. cbn [step] in Hs. unfold step_pop in Hs. rewrite Hk in Hs.
+  unfold clear_queue in Hs. rewrite drop_promises_no_push in Hs by auto.
   destruct (s_popen r || s_ppush r); [discriminate|].
   destruct (s_q r) as [|f q'] eqn:Eq.
   - rewrite Hr in Hs. inversion Hs; subst. split; [reflexivity|]. eexists. split; [apply kget_put_same|]. cbn. auto.
@@ -114,7 +118,7 @@ Proof.
     + rewrite Hr in Hs. destruct (reason =? NO_ERROR); cbn [negb] in Hs.
       * destruct (s_infl r); [discriminate|]. destruct (pp_blocked o); [inversion Hs; reflexivity|].
         destruct (pp_partial o); inversion Hs; reflexivity.
-      * unfold clear_queue in Hs. inversion Hs; subst. split; auto. eexists. split; [apply kget_put_same|]. cbn. auto.
+      * inversion Hs; subst. split; auto. eexists. split; [apply kget_put_same|]. cbn. auto.
     + destruct (iget _ promised) as [[ck c]|]; inversion Hs; auto.
     + inversion Hs; subst. split; auto. eexists. split; [apply kget_put_same|]. cbn. auto.
 Qed.
@@ -143,19 +147,21 @@ Qed.
    the peer's RST_STREAM, GOAWAY, a connection error: what the handles are told *)
 
 Theorem peer_reset_reaches_handles st sid code o st' outs k r :
-  iget st sid = Some (k, r) -> step st (LRecvReset sid code o) = Ok st' outs -> result_of outs = ROk ->
+  iget st sid = Some (k, r) -> no_push (s_q r) = true ->
+  step st (LRecvReset sid code o) = Ok st' outs -> result_of outs = ROk ->
   let s' := fst (recv_reset sid code (r_queued o) (s_state r)) in
   (exists r', kget st' k = Some r' /\ s_state r' = s' /\ s_q r' = [] /\ s_infl r' = None /\ s_id r' = s_id r) /\
   (forall k', k' <> k -> kget st' k' = kget st k') /\
   step st' (LPollRecv k) = Ok st' [OSurface (s_id r) (ensure_recv_open s')] /\
   (forall m, step st' (LPollReset k m) = Ok st' [OSurface (s_id r) (ensure_reason m s')]).
 Proof.
-  intros Hi Hs Hres. cbn [step] in Hs. unfold step_recv_reset in Hs. rewrite Hi in Hs.
+  intros Hi Hnp Hs Hres. cbn [step] in Hs. unfold step_recv_reset, clear_queue in Hs. rewrite Hi in Hs.
+  rewrite drop_promises_no_push in Hs by auto.
   destruct (sid =? 0); [use_res1 Hs; discriminate|].
-  destruct (c_recv_max st <? sid); [use_res1 Hs; discriminate|].
+  destruct ((c_recv_max st <? sid) && _); [use_res1 Hs; discriminate|].
   destruct (s_popen r && negb (is_server (c_role st))); [use_res1 Hs; discriminate|].
   destruct (negb (r_quota o)); [use_res1 Hs; discriminate|].
-  unfold clear_queue in Hs. use_res1 Hs. cbn zeta.
+  use_res1 Hs. cbn zeta.
   split; [eexists; split; [apply kget_put_same|]; cbn; auto|].
   split; [intros; apply kget_put_other; auto|].
   split; [cbn [step]; unfold step_poll_recv; rewrite kget_put_same; reflexivity|].
@@ -176,13 +182,15 @@ Qed.
    linked record: the state machine's handle_error, that stream's queue discarded *)
 Theorem conn_error_reaches_handles st e st' outs k r :
   step st (LHandleError e) = Ok st' outs -> kget st k = Some r -> is_linked st k = true ->
+  no_push (linked_queues st) = true ->
   let s' := fst (handle_error e (s_state r)) in
   (exists r', kget st' k = Some r' /\ s_state r' = s' /\ s_q r' = [] /\ s_infl r' = None) /\
   c_conn_error st' = Some e /\
   step st' (LPollRecv k) = Ok st' [OSurface (s_id r) (ensure_recv_open s')] /\
   (forall m, step st' (LPollReset k m) = Ok st' [OSurface (s_id r) (ensure_reason m s')]).
 Proof.
-  intros Hs Hk Hl. cbn [step] in Hs. unfold step_handle_error in Hs. use_res1 Hs. cbn zeta.
+  intros Hs Hk Hl Hnp. cbn [step] in Hs. unfold step_handle_error in Hs. use_res1 Hs. cbn zeta.
+  rewrite fail_promised_no_push by auto.
   assert (Hg : kget (with_conn_error (with_slab st (map_linked st (fun _ r0 => fail_rec e r0))) (Some e)) k
                = Some (fail_rec e r)).
   { unfold kget. cbn [c_slab with_conn_error with_slab]. rewrite (map_linked_get st _ k r Hk), Hl. reflexivity. }
@@ -218,7 +226,8 @@ Qed.
    stream that was not closed reaches every handle of it with exactly that code: poll_reset (both flavours) reports
    Ok(Some(code)), a read reports Err(Reset(sid, code, Remote)) unless the peer's message was already complete *)
 Theorem peer_reset_surfaces_exact st sid code o st' outs k r :
-  iget st sid = Some (k, r) -> step st (LRecvReset sid code o) = Ok st' outs -> result_of outs = ROk ->
+  iget st sid = Some (k, r) -> no_push (s_q r) = true ->
+  step st (LRecvReset sid code o) = Ok st' outs -> result_of outs = ROk ->
   is_closed (s_state r) = false \/ r_queued o = true ->
   (forall m, step st' (LPollReset k m) = Ok st' [OSurface (s_id r) (RReason (Some code))]) /\
   (is_recv_end_stream (s_state r) = false ->
@@ -226,8 +235,8 @@ Theorem peer_reset_surfaces_exact st sid code o st' outs k r :
   (is_recv_end_stream (s_state r) = true ->
    step st' (LPollRecv k) = Ok st' [OSurface (s_id r) (RBool false)]).
 Proof.
-  intros Hi Hs Hres Hc.
-  destruct (peer_reset_reaches_handles st sid code o st' outs k r Hi Hs Hres) as (_ & _ & Hp & Hm).
+  intros Hi Hnp Hs Hres Hc.
+  destruct (peer_reset_reaches_handles st sid code o st' outs k r Hi Hnp Hs Hres) as (_ & _ & Hp & Hm).
   destruct (recv_reset_surfaces sid code (r_queued o) (s_state r) Hc) as ((Ha & Hb) & _ & _ & _ & Hn & He).
   split; [|split].
   - intros m. rewrite Hm. destruct m; [rewrite Ha|rewrite Hb]; reflexivity.
